@@ -5,19 +5,19 @@ The invariants along public operations and histories.
 set_option linter.unusedVariables false
 namespace AsherahVerif.Env
 
-/-! ### reading a `Spec` in its two modes -/
+/-! ### reading a `CSpec` in its two modes -/
 
 /-- safety reading (any fault schedule): the invariant survives, successful results are as specified. -/
-theorem Spec.safe {α : Type} {P : World → Prop} {x : M α} {G : α → World → Prop}
-    (h : ∀ a, Spec a False P x G) {w : World} (hi : Inv w) (hp : P w) :
+theorem CSpec.safe {α : Type} {P : World → Prop} {x : M α} {G : α → World → Prop}
+    (h : ∀ a, CSpec a False P x G) {w : World} (hi : Inv w) (hp : P w) :
     Inv (x w).2 ∧ ∀ v, (x w).1 = .ok v → G v (x w).2 := by
   rcases (h (accessesAfterClose (x w).2)).post w (fun f => f.elim) hi (fun f => f.elim) hp with hb | ⟨i, _, g, _⟩
   · exact absurd hb (Nat.lt_irrefl _)
   · exact ⟨i, g⟩
 
 /-- progress reading (empty fault schedule): success as specified, unless a destroyed secret was touched. -/
-theorem Spec.live {α : Type} {P : World → Prop} {x : M α} {G : α → World → Prop} {w : World}
-    (h : Spec (accessesAfterClose w) True P x G) (hi : Inv w) (hnf : w.faults = []) (hp : P w) :
+theorem CSpec.live {α : Type} {P : World → Prop} {x : M α} {G : α → World → Prop} {w : World}
+    (h : CSpec (accessesAfterClose w) True P x G) (hi : Inv w) (hnf : w.faults = []) (hp : P w) :
     accessesAfterClose w < accessesAfterClose (x w).2 ∨
       (Inv (x w).2 ∧ ∃ v, (x w).1 = .ok v ∧ G v (x w).2) := by
   rcases h.post w (fun _ => Nat.le_refl _) hi (fun _ => hnf) hp with hb | ⟨i, _, g, s⟩
@@ -204,23 +204,23 @@ theorem FInv.init {t : Int} (ht : nsPerSec ≤ t) : FInv t (World.init t) :=
 /-! ### each public operation keeps the invariants -/
 
 theorem decryptDataRowRecord_safe {a : Nat} (x : Ctx) (d : Drr) (rl : Bool) :
-    Spec a False (fun _ => True) (decryptDataRowRecord x d rl) (fun _ _ => True) := by
+    CSpec a False (fun _ => True) (decryptDataRowRecord x d rl) (fun _ _ => True) := by
   unfold decryptDataRowRecord
   split
-  · exact Spec.throw _ fun _ _ _ h => h
+  · exact CSpec.throw _ fun _ _ _ h => h
   · split
-    · exact Spec.throw _ fun _ _ _ h => h
+    · exact CSpec.throw _ fun _ _ _ h => h
     · rename_i dk p _
-      apply Spec.ite <;> intro hk
-      · exact Spec.throw _ fun _ _ _ h => h
-      · apply Spec.bind (G1 := fun _ _ => True)
-          ((getOrLoad_spec x.ikCache p _ (fun m => loadIntermediateKey x m rl)
+      apply CSpec.ite <;> intro hk
+      · exact CSpec.throw _ fun _ _ _ h => h
+      · apply CSpec.bind (G1 := fun _ _ => True)
+          ((getOrLoad_cspec x.ikCache p _ (fun m => loadIntermediateKey x m rl)
             (fun m => loadIntermediateKey_ext x m rl) (by stable_auto)
-            (loadIntermediateKey_spec x p rl (Classical.not_not.mp hk))).weaken
+            (loadIntermediateKey_cspec x p rl (Classical.not_not.mp hk))).weaken
             (fun _ _ _ h => h.elim) (fun _ _ _ _ => trivial))
         intro ik
-        refine Spec.finallyDo ?_ (fun _ => Stable.const _) (keyRelease_spec ik)
-        exact Spec.of_still (decryptRow_ext _ _ _) (decryptRow_still _ _ _)
+        refine CSpec.finallyDo ?_ (fun _ => Stable.const _) (keyRelease_cspec ik)
+        exact CSpec.of_still (decryptRow_ext _ _ _) (decryptRow_still _ _ _)
           fun _ _ _ _ _ => Or.inr ⟨fun _ _ => trivial, False.elim⟩
 
 theorem Inv.beginOp {w : World} (hi : Inv w) (fl : List Fault) : Inv { w with log := [], faults := fl } :=
@@ -232,7 +232,7 @@ theorem encrypt_finv {t : Int} {w : World} (h : FInv t w) (s pay : Nat) (fl : Li
         Genuine (encrypt s pay fl true w).2.store (w.sessions.getD s default).part pay d := by
   rw [encrypt_run]
   have hc0 : ClockOK t { w with log := [], faults := fl } := h.clock
-  have := Spec.safe (fun a => encryptPayload_spec (a := a) (sessionCtx { w with log := [], faults := fl } s) pay true)
+  have := CSpec.safe (fun a => encryptPayload_cspec (a := a) (sessionCtx { w with log := [], faults := fl } s) pay true)
     (h.inv.beginOp fl) (hc0.timeOK s)
   exact ⟨⟨this.1, hc0.ext (encryptPayload_ext _ _ _ _)⟩, this.2⟩
 
@@ -240,12 +240,12 @@ theorem decrypt_finv {t : Int} {w : World} (h : FInv t w) (s : Nat) (d : Drr) (f
     FInv t (decrypt s d fl true w).2 := by
   rw [decrypt_run]
   have hc0 : ClockOK t { w with log := [], faults := fl } := h.clock
-  have := Spec.safe (fun a => decryptDataRowRecord_safe (a := a) (sessionCtx { w with log := [], faults := fl } s) d true)
+  have := CSpec.safe (fun a => decryptDataRowRecord_safe (a := a) (sessionCtx { w with log := [], faults := fl } s) d true)
     (h.inv.beginOp fl) trivial
   exact ⟨this.1, hc0.ext (decryptDataRowRecord_ext _ _ _ _)⟩
 
 theorem cacheClose_inv {w : World} (hi : Inv w) (c : Nat) : Inv (cacheClose c w).2 :=
-  (Spec.safe (fun a => cacheClose_spec (a := a) (P := fun _ => True) c) hi trivial).1
+  (CSpec.safe (fun a => cacheClose_cspec (a := a) (P := fun _ => True) c) hi trivial).1
 
 theorem closeSession_run (s : Nat) (w : World) :
     closeSession s w =
@@ -304,7 +304,7 @@ theorem closeFactory_finv {t : Int} {w : World} (h : FInv t w) (f : Nat) :
       | none => pure ()
       cacheClose (w.facs.getD f default).skCache : M Unit) := by
     ext_auto [cacheClose_ext]
-  have hs : ∀ a, Spec a False (fun _ => True) (do
+  have hs : ∀ a, CSpec a False (fun _ => True) (do
       match (w.facs.getD f default).sharedIk with
       | some c => cacheClose c
       | none => pure ()
@@ -312,9 +312,9 @@ theorem closeFactory_finv {t : Int} {w : World} (h : FInv t w) (f : Nat) :
     intro a
     dsimp only
     split
-    · exact Spec.bind (G1 := fun _ _ => True) (cacheClose_spec _) fun _ => cacheClose_spec _
-    · exact cacheClose_spec _
-  exact ⟨(Spec.safe hs hi1 trivial).1, hc1.ext (hx _)⟩
+    · exact CSpec.bind (G1 := fun _ _ => True) (cacheClose_cspec _) fun _ => cacheClose_cspec _
+    · exact cacheClose_cspec _
+  exact ⟨(CSpec.safe hs hi1 trivial).1, hc1.ext (hx _)⟩
 
 theorem cacheOf_empty (on : Bool) (kind : Option (Cache.Kind × Nat)) (pc wc : Nat) :
     (cacheOf on kind pc wc).ents = [] ∧ (cacheOf on kind pc wc).latest = [] := by
@@ -527,7 +527,7 @@ theorem genuine_decrypts {t : Int} {w : World} (h : FInv t w) {part pay : Nat} {
       accessesAfterClose w < accessesAfterClose (applyOp w (.decrypt s' d [])).2 := by
   rw [(applyOp_decrypt w s' d []).1, (applyOp_decrypt w s' d []).2, decrypt_run]
   have hx : (sessionCtx { w with log := [], faults := [] } s').part = part := hp
-  have hs := decryptDataRowRecord_spec (a := accessesAfterClose ({ w with log := [], faults := [] } : World)) (F := True)
+  have hs := decryptDataRowRecord_cspec (a := accessesAfterClose ({ w with log := [], faults := [] } : World)) (F := True)
     (sessionCtx { w with log := [], faults := [] } s') d true pay
   rcases hs.live (h.inv.beginOp []) rfl (hx ▸ hg) with hb | ⟨_, v, hv, hvp⟩
   · exact Or.inr hb
@@ -585,7 +585,7 @@ theorem encrypt_live {t : Int} {w : World} (h : FInv t w) (s pay : Nat) :
       accessesAfterClose w < accessesAfterClose (applyOp w (.encrypt s pay [])).2 := by
   rw [(applyOp_encrypt w s pay []).1, (applyOp_encrypt w s pay []).2, encrypt_run]
   have hc0 : ClockOK t { w with log := [], faults := [] } := h.clock
-  have hs := encryptPayload_spec (a := accessesAfterClose ({ w with log := [], faults := [] } : World)) (F := True)
+  have hs := encryptPayload_cspec (a := accessesAfterClose ({ w with log := [], faults := [] } : World)) (F := True)
     (sessionCtx { w with log := [], faults := [] } s) pay true
   rcases hs.live (h.inv.beginOp []) rfl (hc0.timeOK s) with hb | ⟨_, v, hv, _⟩
   · exact Or.inr hb
